@@ -122,12 +122,12 @@ def install() -> None:
     # ---- argument parsing (--describe consults the registry from inside the parser)
     orig_parse = cm_main.parse_args
 
-    def parse_args(argv, codemod_registry):
+    def parse_args(*args, **kwargs):
         rec = _active
         if rec is not None:
             rec.in_parse = True
         try:
-            return orig_parse(argv, codemod_registry)
+            return orig_parse(*args, **kwargs)
         finally:
             if rec is not None:
                 rec.in_parse = False
@@ -155,15 +155,15 @@ def install() -> None:
     # ---- CodemodStart / CodemodEnd
     orig_apply = base_codemod.BaseCodemod._apply
 
-    def _apply(self, context_, rules):
+    def _apply(self, context_, rules, *args, **kwargs):
         rec = _active
         if rec is None:
-            return orig_apply(self, context_, rules)
+            return orig_apply(self, context_, rules, *args, **kwargs)
         rec.cur_codemod = self.id
         rec.emit("CodemodStart", c=self.id, rules=list(rules), tool=self._metadata.tool.name if self._metadata.tool else None)
         err = None
         try:
-            return orig_apply(self, context_, rules)
+            return orig_apply(self, context_, rules, *args, **kwargs)
         except BaseException as e:  # noqa: BLE001 - logged, re-raised
             err = type(e).__name__
             raise
@@ -239,16 +239,16 @@ def install() -> None:
     # ---- Write (libcst pipeline)
     orig_update = libcst_transformer.update_code
 
-    def update_code(file_path, new_code):
+    def update_code(file_path, *args, **kwargs):  # signature-tolerant: only the path is looked at
         rec = _active
         if rec is None:
-            return orig_update(file_path, new_code)
+            return orig_update(file_path, *args, **kwargs)
         pre = _read(file_path)
         try:
             w = rec.inject.get("raise_in_write")
             if w and w.get("f") == rec.rel(file_path):
                 raise OSError(28, "No space left on device (injected by harness)")
-            return orig_update(file_path, new_code)
+            return orig_update(file_path, *args, **kwargs)
         finally:
             rec.emit("Write", f=rec.rel(file_path), pre=rec.intern(pre), post=rec.intern(_read(file_path)), c=rec.cur_codemod)
 
@@ -295,10 +295,10 @@ def install() -> None:
     # ---- Merge
     orig_pr = context.CodemodExecutionContext.process_results
 
-    def process_results(self, codemod_id, results):
+    def process_results(self, codemod_id, *args, **kwargs):
         rec = _active
         try:
-            return orig_pr(self, codemod_id, results)
+            return orig_pr(self, codemod_id, *args, **kwargs)
         finally:
             if rec is not None:
                 rec.emit(
@@ -315,17 +315,17 @@ def install() -> None:
     # ---- Deps
     orig_pd = context.CodemodExecutionContext.process_dependencies
 
-    def process_dependencies(self, codemod_id):
+    def process_dependencies(self, codemod_id, *args, **kwargs):
         rec = _active
         if rec is None:
-            return orig_pd(self, codemod_id)
+            return orig_pd(self, codemod_id, *args, **kwargs)
         stores = [rec.rel(s.file) for s in (self.repo_manager.package_stores or [])]
         before = {s: rec.intern(_read(rec.directory / s)) for s in stores}
         n_before = len(self.get_changesets(codemod_id))
         out = None
         err = None
         try:
-            out = orig_pd(self, codemod_id)
+            out = orig_pd(self, codemod_id, *args, **kwargs)
             return out
         except BaseException as e:  # noqa: BLE001
             err = type(e).__name__
@@ -351,8 +351,8 @@ def install() -> None:
     # ---- ReportBuilt / ReportWritten
     orig_build = codetf.CodeTF.build.__func__
 
-    def build(cls, context_, elapsed_ms, original_args, results):
-        out = orig_build(cls, context_, elapsed_ms, original_args, results)
+    def build(cls, *args, **kwargs):
+        out = orig_build(cls, *args, **kwargs)
         if _active is not None:
             _active.emit("ReportBuilt", report=out.model_dump(mode="json", exclude_none=True))
         return out
@@ -361,10 +361,10 @@ def install() -> None:
 
     orig_write = codetf.CodeTF.write_report
 
-    def write_report(self, outfile):
+    def write_report(self, outfile, *args, **kwargs):
         rc = None
         try:
-            rc = orig_write(self, outfile)
+            rc = orig_write(self, outfile, *args, **kwargs)
             return rc
         finally:
             if _active is not None:
